@@ -2,6 +2,7 @@ import SqlgrepModel.Lemmas.ExtractRow
 import SqlgrepModel.Lemmas.ParseLit
 import SqlgrepModel.Lemmas.ParseLitMore
 import SqlgrepModel.Lemmas.Timestamp
+import SqlgrepModel.Lemmas.FloatGrammar
 /-
 C01 — regex/split extraction yields exactly the captured, typed column values.
 
@@ -89,8 +90,40 @@ theorem digits_positional (ds : List Nat) (b : Nat) : digitsVal (ds ++ [b]) = di
 /-! ### the other literal forms ("NULL when the text is not a literal of that type")
 
 `parseI64_exact` says what an INT literal is; these say it for BOOLEAN texts (CONVERT / JSON strings), INTERVAL and the
-month names a TIMESTAMP column accepts for its second part. (REAL literals are `f64::from_str`, a fact shipped with each
-case; TIMESTAMP literals: `timestamp_exists_iff` above for the parts, `Lemmas/Timestamp.lean` for the text form.) -/
+month names a TIMESTAMP column accepts for its second part; `real_literal_exact` says it for REAL texts (`f64::from_str`,
+computed by `DecFloat.parseF64N` and formalised as the grammar `Spec/FloatGrammar.lean`). TIMESTAMP literals:
+`timestamp_exists_iff` above for the parts, `Lemmas/Timestamp.lean` for the text form. -/
+
+/-- **real_literal_exact (REAL column text → value).** With the computed `f64::from_str` (`Oracles.computed`, what the
+driver uses whenever a case ships no fact), the text `cs` of a group — handed over as its UTF-8 bytes — is a REAL literal
+with the value `b` exactly when `cs` is a `Float` of the grammar of Rust's `f64::from_str`
+(`FloatGrammar.FloatD`: optional sign; digits with an optional point, at least one digit; optional exponent; or `inf` /
+`infinity` / `nan` in any letter case; nothing around it) and `b` is the REAL of its denotation — the decimal rounded to
+the nearest REAL, ties to even, `inf` on overflow (`DecFloat.bitsOf`, `DecFloat.decToF64_nearest`); every other text is
+"not a literal of that type" (NULL). Never a truncated or re-typed value: `1e400` is `inf`, `1e-400` is `0`,
+`0.1` is the REAL nearest to one tenth. -/
+theorem real_literal_exact (cs : List Char) :
+    (∀ b, parseValue Oracles.computed .real (Utf8.encode cs) = some (.real b) ↔
+      ∃ v, FloatGrammar.FloatD cs v ∧ DecFloat.bitsOf v = b) ∧
+    (parseValue Oracles.computed .real (Utf8.encode cs) = none ↔ ¬ ∃ v, FloatGrammar.FloatD cs v) := by
+  have key : ∀ b, DecFloat.parseF64N (Utf8.encode cs) = some b ↔ ∃ v, FloatGrammar.FloatD cs v ∧ DecFloat.bitsOf v = b :=
+    DecFloat.parseF64N_utf8_iff cs
+  constructor
+  · intro b
+    rw [← key b]
+    simp only [parseValue, Oracles.computed]
+    cases DecFloat.parseF64N (Utf8.encode cs) <;> simp
+  · simp only [parseValue, Oracles.computed]
+    cases hp : DecFloat.parseF64N (Utf8.encode cs) with
+    | none =>
+      simp only [Option.map_none, true_iff]
+      rintro ⟨v, hv⟩
+      have := (key _).2 ⟨v, hv, rfl⟩
+      rw [hp] at this; cases this
+    | some b =>
+      simp only [Option.map_some, reduceCtorEq, false_iff]
+      obtain ⟨v, hv, _⟩ := (key b).1 hp
+      exact fun hn => hn ⟨v, hv⟩
 
 /-- a BOOLEAN literal is exactly `true` or `false` (lower case, nothing around it) -/
 theorem parseBool_exact (s : Text) (b : Bool) :
@@ -293,5 +326,17 @@ example : (specTsFrom { parsing := .multi [], type := .timestamp } [.num 2020, .
 example : specTsFrom { parsing := .multi [], type := .timestamp } [.num 2020, .absent, .num 29] 0 {} = .null := by rfl
 example : specTsFrom { parsing := .multi [], type := .timestamp } [.num 2020, .num 4294967297, .num 29] 0 {} = .null := by rfl
 example : trim [32, 0xC2, 0xA0, 97, 32, 98, 0xE3, 0x80, 0x80, 9] = [97, 32, 98] := by decide
+-- REAL texts (`real_literal_exact`): `-1.5e3` is a `Float` denoting `-15 · 10^2`; `1,5` and `٣` (a non-ASCII digit) are not literals
+example : FloatGrammar.FloatD "-1.5e3".toList (.dec true 15 2) :=
+  .number (sg := ['-']) (body := "1.5e3".toList) .minus
+    (FloatGrammar.NumberD.point (ip := ['1']) (fp := ['5']) (e := ['e', '3']) (ev := 3) (by decide) (by decide)
+      (Or.inl (by decide)) (FloatGrammar.ExpD.some (sg := []) (ds := ['3']) (neg := false) (Or.inl rfl) .none (by decide)))
+example : DecFloat.parseF64N (Utf8.encode "-1.5e3".toList) = some 0xc097700000000000
+    ∧ DecFloat.bitsOf (.dec true 15 2) = 0xc097700000000000 := by decide +kernel
+example : parseValue Oracles.computed .real (Utf8.encode "-1.5e3".toList) = some (.real 0xc097700000000000) := by
+  have : DecFloat.parseF64N (Utf8.encode "-1.5e3".toList) = some 0xc097700000000000 := by decide +kernel
+  simp only [parseValue, Oracles.computed, this, Option.map_some]
+example : DecFloat.parseF64N (Utf8.encode "1,5".toList) = none ∧ DecFloat.parseF64N (Utf8.encode "٣".toList) = none
+    ∧ DecFloat.parseF64N (Utf8.encode " 1".toList) = none := by decide +kernel
 
 end Sqlgrep.Props.C01
